@@ -1,4 +1,6 @@
-use crate::{Enr, EnrKey, EnrPublicKey, Error, Key, NodeId, MAX_ENR_SIZE};
+use crate::{
+    check_spec_reserved_keys, Enr, EnrKey, EnrPublicKey, Error, Key, NodeId, MAX_ENR_SIZE,
+};
 use crate::{
     ENR_VERSION, ID_ENR_KEY, IP6_ENR_KEY, IP_ENR_KEY, TCP6_ENR_KEY, TCP_ENR_KEY, UDP6_ENR_KEY,
     UDP_ENR_KEY,
@@ -177,8 +179,9 @@ impl<K: EnrKey> Builder<K> {
         }
 
         // Sanitize all data, ensuring all RLP data is correctly formatted.
-        for value in self.content.values() {
-            Header::decode(&mut value.as_ref())?;
+        // Every value is exactly one RLP item and reserved keys hold well-typed values.
+        for (key, value) in &self.content {
+            check_spec_reserved_keys(key, value)?;
         }
 
         let mut id_bytes = BytesMut::with_capacity(self.id.length());
